@@ -701,4 +701,389 @@ mod verif_xc_ack_waiter {
     }
     assert!(n >= 300, "vacuity guard: only {} cases enumerated", n);
   }
+
+  // ------------------------------------------------------------------------------------------
+  // (3) DataWriter level: what the application is told.  A real with_key::DataWriter whose
+  //     command channel ends in the test instead of an RTPS Writer, so that the test decides the
+  //     fate of the WaitForAcknowledgments command.
+  // Oracle (from the statement): the answer is Ok(true) only if a success token was really sent
+  // for THIS wait before the answer (or the DataWriter is not Reliable: nothing to wait for);
+  // if the token is sent in time the answer is Ok(true) without waiting for the timeout; otherwise
+  // the synchronous form answers Ok(false) not later than max_wait + slack (and, when the command
+  // is simply held, not before max_wait), the asynchronous form stays pending and completes with
+  // Ok(true) as soon as the token is there.
+  // Bound: reliability in {Reliable, BestEffort, none} x fate of the command in {queue full with
+  // k = 1, 2 samples, received and sender dropped without token, token at once, token after 20 ms,
+  // token 40 ms after the timeout, held}; max_wait 60..100 ms; the future is polled with a no-op
+  // waker a bounded number of times (no timing).
+  // ------------------------------------------------------------------------------------------
+  mod datawriter_side {
+    use std::{
+      pin::Pin,
+      sync::{
+        atomic::{AtomicBool, Ordering},
+        Arc, Mutex,
+      },
+      task::{Context, Poll},
+      thread,
+      time::{Duration as StdDuration, Instant},
+    };
+
+    use byteorder::LittleEndian;
+    use futures::Future;
+    use mio_extras::channel as mio_channel;
+
+    use crate::{
+      dds::{
+        participant::DomainParticipant,
+        qos::{policy::Reliability, QosPolicies, QosPolicyBuilder},
+        statusevents::{sync_status_channel, DataWriterStatus, StatusChannelSender},
+        with_key::datawriter::DataWriter,
+      },
+      discovery::discovery::DiscoveryCommand,
+      rtps::writer::WriterCommand,
+      serialization::CDRSerializerAdapter,
+      structure::{
+        entity::RTPSEntity,
+        guid::{EntityId, EntityKind, GUID},
+        topic_kind::TopicKind,
+      },
+      test::random_data::RandomData,
+    };
+
+    type TestWriter = DataWriter<RandomData, CDRSerializerAdapter<RandomData, LittleEndian>>;
+
+    #[derive(Clone, Copy, Debug, PartialEq, Eq)]
+    enum Rel {
+      Reliable,
+      BestEffort,
+      NoPolicy,
+    }
+    fn qos_of(r: Rel) -> QosPolicies {
+      match r {
+        Rel::Reliable => QosPolicyBuilder::new()
+          .reliability(Reliability::Reliable {
+            max_blocking_time: crate::Duration::from_millis(20),
+          })
+          .build(),
+        Rel::BestEffort => QosPolicyBuilder::new()
+          .reliability(Reliability::BestEffort)
+          .build(),
+        Rel::NoPolicy => QosPolicyBuilder::new().build(),
+      }
+    }
+
+    #[derive(Clone, Copy, Debug, PartialEq, Eq)]
+    enum Fate {
+      QueueFull(usize),  // the command queue (capacity k) is full of k samples: the command cannot be sent
+      Dropped,           // command received, its sender dropped without a token (e.g. superseded wait)
+      TokenAfter(u64),   // command received, token sent this many ms later
+      TokenAfterTimeout, // command received, token sent 40 ms after max_wait has elapsed
+      Held,              // command received and kept, no token
+    }
+
+    struct Captured {
+      dw: TestWriter,
+      cc: mio_channel::Receiver<WriterCommand>,
+      _disc: mio_channel::Receiver<DiscoveryCommand>,
+      _status: StatusChannelSender<DataWriterStatus>,
+    }
+
+    fn captured_writer(dp: &DomainParticipant, rel: Rel, queue: usize, serial: u8) -> Captured {
+      let qos = qos_of(rel);
+      let publisher = dp.create_publisher(&qos).expect("harness: publisher");
+      let topic = dp
+        .create_topic(
+          format!("verif_xc_wfa_{:?}", rel),
+          "RandomData".to_string(),
+          &qos,
+          TopicKind::WithKey,
+        )
+        .expect("harness: topic");
+      let (cc_upload, cc) = mio_channel::sync_channel::<WriterCommand>(queue);
+      let (discovery_command, _disc) = mio_channel::sync_channel::<DiscoveryCommand>(8);
+      let (_status, status_receiver) = sync_status_channel::<DataWriterStatus>(4).unwrap();
+      let guid = GUID::new_with_prefix_and_id(
+        dp.guid().prefix,
+        EntityId::new([0x77, 0x20, serial], EntityKind::WRITER_WITH_KEY_USER_DEFINED),
+      );
+      let dw = TestWriter::new(
+        publisher,
+        topic,
+        qos,
+        guid,
+        cc_upload,
+        Arc::new(Mutex::new(None)),
+        discovery_command,
+        status_receiver,
+      )
+      .expect("harness: datawriter");
+      Captured {
+        dw,
+        cc,
+        _disc,
+        _status,
+      }
+    }
+
+    fn fill(c: &Captured, k: usize) {
+      for a in 0..k {
+        c.dw
+          .write(
+            RandomData {
+              a: a as i64,
+              b: "unacknowledged".to_string(),
+            },
+            None,
+          )
+          .expect("harness: write");
+      }
+    }
+
+    // what the stand-in for the RTPS Writer did with the command
+    struct Report {
+      cc: mio_channel::Receiver<WriterCommand>,
+      samples_seen: usize,
+      command_seen: bool,
+      token_at: Option<Instant>,
+    }
+
+    fn responder(
+      cc: mio_channel::Receiver<WriterCommand>,
+      fate: Fate,
+      max_wait: StdDuration,
+      stop: Arc<AtomicBool>,
+    ) -> thread::JoinHandle<Report> {
+      thread::spawn(move || {
+        let mut rep = Report {
+          cc,
+          samples_seen: 0,
+          command_seen: false,
+          token_at: None,
+        };
+        if let Fate::QueueFull(_) = fate {
+          return rep; // nobody reads the queue
+        }
+        let give_up = Instant::now() + StdDuration::from_secs(3);
+        while !stop.load(Ordering::SeqCst) && Instant::now() < give_up {
+          match rep.cc.try_recv() {
+            Ok(WriterCommand::WaitForAcknowledgments { all_acked }) => {
+              rep.command_seen = true;
+              let received = Instant::now();
+              match fate {
+                Fate::Dropped => drop(all_acked),
+                Fate::TokenAfter(ms) => {
+                  thread::sleep(StdDuration::from_millis(ms));
+                  rep.token_at = Some(Instant::now());
+                  let _ = all_acked.try_send(());
+                }
+                Fate::TokenAfterTimeout => {
+                  thread::sleep((received + max_wait + StdDuration::from_millis(40)) - Instant::now());
+                  rep.token_at = Some(Instant::now());
+                  let _ = all_acked.try_send(());
+                }
+                Fate::Held | Fate::QueueFull(_) => {
+                  while !stop.load(Ordering::SeqCst) && Instant::now() < give_up {
+                    thread::sleep(StdDuration::from_millis(1));
+                  }
+                  drop(all_acked);
+                }
+              }
+              break;
+            }
+            Ok(_) => rep.samples_seen += 1,
+            Err(_) => thread::sleep(StdDuration::from_millis(1)),
+          }
+        }
+        rep
+      })
+    }
+
+    const SLACK: StdDuration = StdDuration::from_millis(400); // scheduling noise of a loaded test machine
+
+    #[test]
+    fn xc_dw_sync_wait_for_acknowledgments() {
+      let dp = DomainParticipant::new(0).expect("harness: participant");
+      let fates = [
+        Fate::QueueFull(1),
+        Fate::QueueFull(2),
+        Fate::Dropped,
+        Fate::TokenAfter(0),
+        Fate::TokenAfter(20),
+        Fate::TokenAfterTimeout,
+        Fate::Held,
+      ];
+      let mut n = 0u32;
+      let mut serial = 0u8;
+      for rel in [Rel::Reliable, Rel::BestEffort, Rel::NoPolicy] {
+        for fate in fates {
+          serial += 1;
+          let max_wait = StdDuration::from_millis(if let Fate::TokenAfter(_) = fate { 100 } else { 60 });
+          let queue = if let Fate::QueueFull(k) = fate { k } else { 4 };
+          let c = captured_writer(&dp, rel, queue, serial);
+          if let Fate::QueueFull(k) = fate {
+            fill(&c, k);
+          }
+          let Captured { dw, cc, _disc, _status } = c;
+          let stop = Arc::new(AtomicBool::new(false));
+          let h = responder(cc, fate, max_wait, Arc::clone(&stop));
+          let ctx = format!("reliability={:?} fate={:?} max_wait={}ms", rel, fate, max_wait.as_millis());
+
+          let start = Instant::now();
+          let answer = dw.wait_for_acknowledgments(max_wait);
+          let returned = Instant::now();
+          let took = returned - start;
+          if !(rel == Rel::Reliable && fate == Fate::TokenAfterTimeout) {
+            stop.store(true, Ordering::SeqCst); // (the late token is still to come in that scenario)
+          }
+          let rep = h.join().expect("harness: responder");
+          stop.store(true, Ordering::SeqCst);
+
+          let answer = match answer {
+            Ok(b) => b,
+            Err(e) => panic!("XC-WITNESS label=wfa.sync.answer {}: answered Err({:?}) after {} ms, must be Ok(true) or Ok(false)", ctx, e, took.as_millis()),
+          };
+          if rel != Rel::Reliable {
+            // not a reliable writer: nothing can be waited for, success at once
+            assert!(answer && took <= SLACK, "XC-WITNESS label=wfa.sync.not_reliable {}: answered Ok({}) after {} ms, a writer that is not Reliable must answer Ok(true) at once", ctx, answer, took.as_millis());
+            n += 1;
+            continue;
+          }
+          let token_before_answer = rep.token_at.is_some_and(|t| t <= returned);
+          if answer {
+            assert!(token_before_answer, "XC-WITNESS label=wfa.sync.only_if {}: answered Ok(true) (\"all acknowledged\") after {} ms although no success token had been sent for this wait (command received by the writer side: {}, token sent: {})", ctx, took.as_millis(), rep.command_seen,
+              match rep.token_at { None => "never".to_string(), Some(t) => format!("{} ms after the answer", (t - returned).as_millis()) });
+          }
+          assert!(took <= max_wait + SLACK, "XC-WITNESS label=wfa.sync.timeout {}: answered Ok({}) only after {} ms", ctx, answer, took.as_millis());
+          match fate {
+            Fate::QueueFull(k) => {
+              // the samples are still queued and the command never got in
+              let mut queued = 0;
+              let mut wait_cmds = 0;
+              while let Ok(cmd) = rep.cc.try_recv() {
+                match cmd {
+                  WriterCommand::WaitForAcknowledgments { .. } => wait_cmds += 1,
+                  _ => queued += 1,
+                }
+              }
+              assert!(queued == k && wait_cmds == 0, "harness: queue-full scenario not established ({} samples, {} wait commands queued)", queued, wait_cmds);
+            }
+            Fate::TokenAfter(_) => {
+              assert!(rep.command_seen, "XC-WITNESS label=wfa.sync.command {}: the WaitForAcknowledgments command never reached the writer side", ctx);
+              let t = rep.token_at.unwrap();
+              if t + StdDuration::from_millis(30) < start + max_wait {
+                assert!(answer, "XC-WITNESS label=wfa.sync.success {}: the success token was sent {} ms after the call (well before the timeout) but the answer was Ok(false) after {} ms", ctx, (t - start).as_millis(), took.as_millis());
+                assert!(returned <= t + SLACK, "XC-WITNESS label=wfa.sync.success {}: answered only {} ms after the token was sent", ctx, (returned - t).as_millis());
+              }
+            }
+            Fate::Dropped => {
+              assert!(rep.command_seen, "XC-WITNESS label=wfa.sync.command {}: the WaitForAcknowledgments command never reached the writer side", ctx);
+            }
+            Fate::TokenAfterTimeout | Fate::Held => {
+              assert!(rep.command_seen, "XC-WITNESS label=wfa.sync.command {}: the WaitForAcknowledgments command never reached the writer side", ctx);
+              assert!(took + StdDuration::from_millis(5) >= max_wait, "XC-WITNESS label=wfa.sync.timeout {}: answered Ok({}) already after {} ms, before the requested time, while the wait was still pending", ctx, answer, took.as_millis());
+            }
+          }
+          n += 1;
+        }
+      }
+      assert!(n == 21, "vacuity guard: only {} cases enumerated", n);
+    }
+
+    // bounded polling with a no-op waker; Ok(Some(answer)) = completed at poll number .1
+    fn poll_n(fut: &mut Pin<Box<dyn Future<Output = crate::dds::result::WriteResult<bool, ()>> + '_>>, times: usize) -> Option<(Result<bool, String>, usize)> {
+      let waker = futures::task::noop_waker();
+      let mut cx = Context::from_waker(&waker);
+      for i in 1..=times {
+        if let Poll::Ready(r) = fut.as_mut().poll(&mut cx) {
+          return Some((r.map_err(|e| format!("{:?}", e)), i));
+        }
+      }
+      None
+    }
+
+    fn take_wait_command(cc: &mio_channel::Receiver<WriterCommand>) -> (usize, Option<StatusChannelSender<()>>) {
+      let mut samples = 0;
+      while let Ok(cmd) = cc.try_recv() {
+        match cmd {
+          WriterCommand::WaitForAcknowledgments { all_acked } => return (samples, Some(all_acked)),
+          _ => samples += 1,
+        }
+      }
+      (samples, None)
+    }
+
+    #[test]
+    fn xc_dw_async_wait_for_acknowledgments() {
+      let dp = DomainParticipant::new(0).expect("harness: participant");
+      let fates = [
+        Fate::QueueFull(1),
+        Fate::QueueFull(2),
+        Fate::Dropped,
+        Fate::TokenAfter(0),
+        Fate::Held,
+      ];
+      let mut n = 0u32;
+      let mut serial = 100u8;
+      for rel in [Rel::Reliable, Rel::BestEffort, Rel::NoPolicy] {
+        for fate in fates {
+          serial += 1;
+          let queue = if let Fate::QueueFull(k) = fate { k } else { 4 };
+          let c = captured_writer(&dp, rel, queue, serial);
+          if let Fate::QueueFull(k) = fate {
+            fill(&c, k);
+          }
+          let ctx = format!("reliability={:?} fate={:?}", rel, fate);
+          let mut fut: Pin<Box<dyn Future<Output = _> + '_>> = Box::pin(c.dw.async_wait_for_acknowledgments());
+          if rel != Rel::Reliable {
+            let r = poll_n(&mut fut, 1);
+            assert!(matches!(r, Some((Ok(true), _))), "XC-WITNESS label=wfa.async.not_reliable {}: first poll gave {:?}, a writer that is not Reliable must complete with Ok(true) at once", ctx, r);
+            n += 1;
+            continue;
+          }
+          // no token has been sent so far, whatever happens to the command
+          let r = poll_n(&mut fut, 4);
+          assert!(!matches!(r, Some((Ok(true), _))), "XC-WITNESS label=wfa.async.only_if {}: completed with Ok(true) at poll #{} although no success token was sent (nothing has read the command queue yet)", ctx, r.as_ref().map_or(0, |x| x.1));
+          assert!(r.is_none(), "XC-WITNESS label=wfa.async.pending {}: completed with {:?} while the wait is pending; it must stay pending", ctx, r);
+          let (samples, cmd) = take_wait_command(&c.cc);
+          let cmd = match fate {
+            Fate::QueueFull(k) => {
+              assert!(samples == k && cmd.is_none(), "harness: queue-full scenario not established");
+              // room now: the future must get its command in at the next poll, still pending
+              let r = poll_n(&mut fut, 1);
+              assert!(r.is_none(), "XC-WITNESS label=wfa.async.only_if {}: completed with {:?} right after the command queue got room, no token sent yet", ctx, r);
+              take_wait_command(&c.cc).1
+            }
+            _ => cmd,
+          };
+          let all_acked = match cmd {
+            Some(s) => s,
+            None => panic!("XC-WITNESS label=wfa.async.command {}: the future was polled but no WaitForAcknowledgments command reached the writer side", ctx),
+          };
+          match fate {
+            Fate::Dropped => {
+              drop(all_acked);
+              let r = poll_n(&mut fut, 4);
+              assert!(!matches!(r, Some((Ok(true), _))), "XC-WITNESS label=wfa.async.only_if {}: completed with Ok(true) at poll #{} after the command's sender was dropped without a success token", ctx, r.as_ref().map_or(0, |x| x.1));
+            }
+            Fate::Held => {
+              let r = poll_n(&mut fut, 8);
+              assert!(r.is_none(), "XC-WITNESS label=wfa.async.pending {}: completed with {:?} while the writer side holds the command without a token", ctx, r);
+              drop(all_acked);
+            }
+            Fate::TokenAfter(_) | Fate::QueueFull(_) => {
+              let r = poll_n(&mut fut, 3);
+              assert!(r.is_none(), "XC-WITNESS label=wfa.async.pending {}: completed with {:?} before the token was sent", ctx, r);
+              let _ = all_acked.try_send(());
+              let r = poll_n(&mut fut, 2);
+              assert!(matches!(r, Some((Ok(true), _))), "XC-WITNESS label=wfa.async.as_soon_as {}: the success token was sent but two more polls gave {:?}, must complete with Ok(true)", ctx, r);
+            }
+            Fate::TokenAfterTimeout => unreachable!(),
+          }
+          n += 1;
+        }
+      }
+      assert!(n == 15, "vacuity guard: only {} cases enumerated", n);
+    }
+  }
 }
